@@ -193,8 +193,24 @@ def run(ctx):
                                construct="%s: '%s': %s" % (name, k, short(v)))
 
     # ---------------------------------------------------------------- M3
+    # exempt: __init__, freeze, and private helpers whose every call site in the class is in an
+    # exempt method or in a method that has already passed its own frozen guard at that point
+    def _callers(hname):
+        out = []
+        for n2, f2 in meths.items():
+            for c_ in iter_own(f2):
+                if isinstance(c_, ast.Call) and isinstance(c_.func, ast.Attribute) and c_.func.attr == hname \
+                        and isinstance(c_.func.value, ast.Name) and c_.func.value.id == 'self':
+                    out.append((n2, f2, c_))
+        return out
+    exempt = {'__init__', 'freeze'}
     for name, fn in sorted(meths.items()):
-        if name in ('__init__', 'freeze'):
+        if name.startswith('_') and not name.startswith('__'):
+            cs_ = _callers(name)
+            if cs_ and all(n2 in exempt or _frozen_guard_before(f2, c_) for n2, f2, c_ in cs_):
+                exempt.add(name)
+    for name, fn in sorted(meths.items()):
+        if name in exempt:
             continue
         writes = _self_state_writes(fn)
         if not writes:
@@ -982,7 +998,7 @@ def _kind_units(fn):
                 {x.value for x in e.elts if isinstance(x, ast.Constant)} >= set(KINDS):
             return
         if isinstance(e, ast.Call) and isinstance(e.func, ast.Name) and e.func.id in _MODFUNCS[0] and \
-                sum(1 for a in e.args if isinstance(a, ast.Name) and kinds_in(a)) >= 2:
+                sum(1 for a in e.args if kinds_in(a)) >= 2:
             # positional hand-over of several kind-named lists to a module-level helper: each
             # argument is paired with the parameter it binds to
             hp = [a.arg for a in _MODFUNCS[0][e.func.id].args.args]
